@@ -15,6 +15,7 @@ structure Inv0 (s : State) : Prop where
   begunKnown : ∀ m, (m, CallPc.begun) ∈ s.calls → ∀ j ∈ m.dead, knownAt s j = true
   laterOld : ∀ m, Later s m → ∀ j ∈ m.dead, j + 1 < s.conns.length
   attemptsOld : ∀ m k, (m, k) ∈ s.attempts → ∀ j ∈ m.dead, j + 1 < s.conns.length
+  locked : s.unlockedDial = false
 
 macro "inv0_case" h:ident : tactic => `(tactic|
   (simp only [step] at $h:ident
@@ -117,7 +118,7 @@ freshly begun call carries the currently known connections -/
 theorem inv0_of_same {s s' : State} (hi : Inv0 s) (hc : s'.conns = s.conns)
     (hf : s'.isClosed = s.isClosed) (ha : s'.attempts = s.attempts)
     (hb : ∀ m, (m, CallPc.begun) ∈ s'.calls → (m, CallPc.begun) ∈ s.calls ∨ m.dead = knownList s)
-    (hl : ∀ m, Later s' m → Later s m) : Inv0 s' := by
+    (hl : ∀ m, Later s' m → Later s m) (hu : s'.unlockedDial = s.unlockedDial := by rfl) : Inv0 s' := by
   have hk : ∀ j, knownAt s' j = knownAt s j := by intro j; simp only [knownAt, hc]
   constructor
   · rw [hc, hf]; exact hi.knownOld
@@ -128,6 +129,7 @@ theorem inv0_of_same {s s' : State} (hi : Inv0 s) (hc : s'.conns = s.conns)
     · exact mem_knownList (h ▸ hj)
   · rw [hc]; exact fun m hm => hi.laterOld m (hl m hm)
   · rw [hc, ha]; exact hi.attemptsOld
+  · rw [hu]; exact hi.locked
 
 theorem later_dropCall {s : State} {id : Nat} {x : Msg} (hx : Later (dropCall s id) x) : Later s x := by
   simp only [Later, dropCall_sendQ, dropCall_failQ, dropCall_conns] at hx ⊢
@@ -291,6 +293,7 @@ theorem inv0_callReconnect {v cap s s' id} (hi : Inv0 s) (h : step v cap s (.cal
       · intro x k hx j hj
         simp only [List.length_append, List.length_singleton]
         have := hi.attemptsOld x k hx j hj; omega
+      · exact hi.locked
     · cases h
       rename_i hcl
       -- the flag is not set: everything the call knew to be closed is already old
@@ -315,12 +318,29 @@ theorem inv0_callReconnect {v cap s s' id} (hi : Inv0 s) (h : step v cap s (.cal
           · exact hi.laterOld x (Or.inr (Or.inr (Or.inl ⟨pc, hp, h2⟩))) j hj
         · exact hi.laterOld x (Or.inr (Or.inr (Or.inr h1))) j hj
       · exact hi.attemptsOld
+      · exact hi.locked
+  · cases h
+
+theorem inv0_callCheckClosed {v cap s s' id} (hi : Inv0 s)
+    (h : step v cap s (.callCheckClosed id) = some s') : Inv0 s' := by
+  simp only [step] at h
+  split at h
+  · rename_i hu; rw [hi.locked] at hu; cases hu
+  · cases h
+
+theorem inv0_callInstall {v cap s s' id} (hi : Inv0 s)
+    (h : step v cap s (.callInstall id) = some s') : Inv0 s' := by
+  simp only [step] at h
+  split at h
+  · rename_i hu; rw [hi.locked] at hu; cases hu
   · cases h
 
 theorem inv0_step {v cap s s' a} (hi : Inv0 s) (h : step v cap s a = some s') : Inv0 s' := by
   cases a with
   | callBegin id => exact inv0_callBegin hi h
   | callReconnect id => exact inv0_callReconnect hi h
+  | callCheckClosed id => exact inv0_callCheckClosed hi h
+  | callInstall id => exact inv0_callInstall hi h
   | markReconnected id => exact inv0_markReconnected hi h
   | callEnq id => exact inv0_callEnq hi h
   | callFail id => exact inv0_callFail hi h
